@@ -118,6 +118,23 @@ fn alphabet(pool: &[Op], thorough: bool) -> Vec<KStep> {
     out
 }
 
+/// Ids whose little-endian byte order (LMDB) and signed order (SQLite) differ from their
+/// numeric order.
+fn wide_pool() -> Vec<Op> {
+    const BIG: u64 = (1 << 63) + 1;
+    vec![
+        Op::ins(1, ts_min(0, 0, 1)),
+        Op::ins(256, ts_min(1, 0, 1)),
+        Op::ins(BIG, ts_min(2, 0, 1)),
+        Op::ins(65536, ts_min(3, 0, 1)),
+        Op::del(256, ts_min(10, 0, 1)),
+        Op::del(BIG, ts_min(11, 0, 1)),
+        Op::del(1, ts_min(12, 0, 1)),
+        Op::del(65536, ts_min(13, 0, 1)),
+        Op::ins(257, ts_min(14, 0, 1)),
+    ]
+}
+
 /// Park points inside a request: after how many documents of the storage call.
 fn park_points(s: &KStep) -> Vec<usize> {
     match &s.step.req {
@@ -296,6 +313,30 @@ where
     }
     let acked: Vec<(usize, u64, datacake_crdt::HLCTimestamp)> = newest.into_iter().map(|((k, i), t)| (k, i, t)).collect();
     for (ksi, id, ts) in &acked {
+        // ... and as what it was: an acknowledged put whose stamp the row carries must be a
+        // live document with that put's bytes, an acknowledged delete a tombstone (a restart
+        // rebuilds live entries and tombstones from exactly this answer)
+        {
+            let name = KEYSPACES[*ksi];
+            let rows = read_rows(store.as_ref(), name).await?;
+            let kinds: Vec<bool> = pool.iter().filter(|o| o.key == *id && o.ts == *ts).map(|o| o.del).collect();
+            if let (Some((t, data)), [del]) = (rows.get(id), kinds.as_slice()) {
+                if t == ts {
+                    let expect = pool.iter().find(|o| o.key == *id && o.ts == *ts && !o.del).map(c02::payload_for);
+                    let ok = if *del { data.is_none() } else { data.as_deref() == expect.as_deref() };
+                    if !ok {
+                        return Err(format!(
+                            "ACK-NOT-DURABLE keyspace {name:?}: the acknowledged {} of id {id} at {ts} is reported by storage as {}",
+                            if *del { "delete" } else { "put" },
+                            match data {
+                                None => "a tombstone".to_string(),
+                                Some(d) => format!("a live document of {} bytes", d.len()),
+                            }
+                        ));
+                    }
+                }
+            }
+        }
         let name = KEYSPACES[*ksi];
         let rows = read_rows(store.as_ref(), name).await?;
         let ks = group.get_or_create_keyspace(name).await;
@@ -532,7 +573,17 @@ fn persistent_case(pool: &[Op], backend: &'static str, n: usize, history: &[KSte
     let pre_sets = match first {
         Ok(p) => Some(p),
         Err(e) => {
-            st.violation(if e.starts_with("HARNESS") { "harness/first-life" } else { "first-life-failed" }, || e.clone(), || case_json(pool, backend, history, "-", in_flight.map(|x| x.0)));
+            st.violation(
+                if e.starts_with("HARNESS") {
+                    "harness/first-life"
+                } else if e.starts_with("ACK-NOT-DURABLE") {
+                    "acknowledged-mutation-not-in-storage"
+                } else {
+                    "first-life-failed"
+                },
+                || e.clone(),
+                || case_json(pool, backend, history, "-", in_flight.map(|x| x.0)),
+            );
             let _ = std::fs::remove_dir_all(&dir);
             return;
         },
@@ -614,6 +665,48 @@ pub fn run(tier: Tier) -> i32 {
         runs.push(J::obj().set("store", "sqlite-file + lmdb (real close and reopen)").set("cases", work.len()));
     }
 
+    // persistent backends, ids whose byte order differs from their numeric order (both tiers):
+    // LMDB compares keys bytewise and SQLite as signed integers, so a rebuild that walks the
+    // tables in "id order" meets 256 before 1 and 2^63+1 before everything (added after C07-g)
+    {
+        let wide = wide_pool();
+        let set = |op: usize| KStep { ks: 0, step: Step { req: Req::Set { op, src: 0 }, fault: Fault::None } };
+        let del = |op: usize| KStep { ks: 0, step: Step { req: Req::Del { op, src: 0 }, fault: Fault::None } };
+        let mut work: Vec<(&'static str, Vec<KStep>, Option<(KStep, usize)>)> = Vec::new();
+        for backend in ["sqlite-file", "lmdb"] {
+            for mask in 0u32..16 {
+                let mut h: Vec<KStep> = vec![set(0), set(1), set(2), set(3)];
+                for b in 0..4 {
+                    if mask & (1 << b) != 0 {
+                        h.push(del(4 + b));
+                    }
+                }
+                work.push((backend, h.clone(), None));
+                if tier.is_thorough() {
+                    // the same with a bulk put, and with a further request in flight at the stop
+                    let mut hb = vec![KStep { ks: 0, step: Step { req: Req::MultiSet { ops: vec![3, 2, 1, 0], src: 0 }, fault: Fault::None } }];
+                    hb.extend(h[4..].iter().cloned());
+                    work.push((backend, hb, None));
+                    for next in [del(4), del(7), set(8)] {
+                        work.push((backend, h.clone(), Some((next, 1))));
+                    }
+                }
+            }
+        }
+        let idx: Vec<usize> = (0..work.len()).collect();
+        let parts = par::par_map_capped(&idx, 4, |_, &i| {
+            let (backend, h, inflight) = &work[i];
+            let mut st = Stats::default();
+            persistent_case(&wide, backend, 100_000 + i, h, inflight.as_ref().map(|(s, k)| (s, *k)), &mut st);
+            st.inc("wide_id_cases");
+            st
+        });
+        for p in parts {
+            total.merge(p);
+        }
+        runs.push(J::obj().set("store", "sqlite-file + lmdb (real close and reopen), ids {1, 256, 65536, 2^63+1}").set("cases", work.len()));
+    }
+
     total.sample(|| case_json(&pool, "harness map store", &[al[1].clone(), al[al.len() - 2].clone()], "after the last request", None));
     total.sample(|| case_json(&pool, "MemStore", &[al[0].clone()], "inside the request, after storage wrote 1 document(s) and before the set was updated", Some(&al[al.len() - 3])));
     let crash_points = total.get("crash_points");
@@ -645,7 +738,9 @@ pub fn run(tier: Tier) -> i32 {
 }
 
 pub fn replay(case: &J) -> i32 {
-    let pool = c02::pool();
+    // the wide-id block has its own operation pool (every history there writes id 256)
+    let text = case.to_string_compact();
+    let pool = if text.contains("\"key\":256") { wide_pool() } else { c02::pool() };
     let parse = |j: &J| -> Option<KStep> {
         let step = c02::step_from_json(j)?;
         let ks = KEYSPACES.iter().position(|k| Some(*k) == j.get("keyspace").and_then(|v| v.as_str())).unwrap_or(0);
